@@ -152,7 +152,9 @@ class ChannelRegistry:
             )
 
         entry = self._channels[key]
-        if entry.message_type is not message_type:
+        # Generic aliases like `Sample[Quantity]` are only the same object while they are
+        # in the (limited) cache of the typing module, so we can't compare by identity.
+        if entry.message_type != message_type:
             exception = ValueError(
                 f"Type mismatch, a channel for key {key!r} exists and the requested "
                 f"message type {message_type} is not the same as the existing "
